@@ -8,6 +8,7 @@ from __future__ import annotations
 
 import argparse
 import copy
+import gc
 import hashlib
 import json
 import os
@@ -92,7 +93,18 @@ def run_case(h: Harness, prop, tier, case, want_choices=False):
         cfg = h.generate(prop, ch.stream("gen"), tier)
         # generation draws are not part of the run's choice list: cfg is stored explicitly
     cfg = json.loads(json.dumps(cfg))  # what a replay file would hold
-    res = h.execute(prop, copy.deepcopy(cfg), ch, tier)
+    # The cyclic garbage collector runs when allocation counters say so, i.e. at points that depend on what the process did before
+    # this run; a finaliser of an abandoned coroutine that runs in the middle of a run may read (tick) the virtual clock.  Collect at
+    # the run boundary and keep the collector off while the simulated system runs.
+    if getattr(h, "gc_discipline", False):
+        gc.collect()
+        gc.disable()
+        try:
+            res = h.execute(prop, copy.deepcopy(cfg), ch, tier)
+        finally:
+            gc.enable()
+    else:
+        res = h.execute(prop, copy.deepcopy(cfg), ch, tier)
     out = {
         "seed": seed,
         "name": case.get("name"),
